@@ -605,10 +605,11 @@ where
                             count += 1;
                         }
                         Ok(other) => {
-                            self.internal_event_tx.send(other).map_err(|e| {
-                                error!("Failed to resend internal event: {:?}", e);
-                                crate::Error::Fatal(e.to_string())
-                            })?;
+                            // Keep the event in its place: it is newer than everything already
+                            // buffered and older than what is still in the channel. Re-sending it
+                            // to the channel tail moved it behind later events (e.g. NoopCommitted
+                            // behind BecomeFollower, which published a leader after its step-down).
+                            self.buffered_internal_event.push_back(other);
                             break;
                         }
                         Err(_) => break,
